@@ -64,7 +64,11 @@ fn enc_case(rng: &mut Rng, out: &mut CaseOut) {
     let rounds = if k.max(r) > 1000 { 2 } else { *rng.pick(if crate::thorough() { &[1usize, 2, 3, 10, 50, 200][..] } else { &[1usize, 2, 3, 10, 50][..] }) };
     let desc = format!("k={k} r={r} rate={} size={size} api={} rounds={rounds}", rate.name(), api.name());
     let res = guarded(|| {
-        let mut enc = match codec::make_enc(api, k, r, size, None) {
+        // fresh, or (a third of the cases) an object with a past
+        let preused = rng.chance(1, 3);
+        out.tag(if preused { "encoder:pre-used" } else { "encoder:fresh" });
+        let made = if preused { crate::mon_c01::preused_encoder(rng, api, rate, k, r, size) } else { codec::make_enc(api, k, r, size, None) };
+        let mut enc = match made {
             Ok(e) => e,
             Err(e) => {
                 out.violate("C12:new-failed", format!("{desc}: {e}"));
@@ -141,7 +145,10 @@ fn dec_case(rng: &mut Rng, out: &mut CaseOut) {
     let rounds = if k.max(r) > 1000 { 2 } else { *rng.pick(if crate::thorough() { &[1usize, 2, 3, 10, 30, 100][..] } else { &[1usize, 2, 3, 10, 30][..] }) };
     let desc = format!("k={k} r={r} rate={} size={size} api={} rounds={rounds}", rate.name(), api.name());
     let res = guarded(|| {
-        let mut dec = match codec::make_dec(api, k, r, size, None) {
+        let preused = rng.chance(1, 3);
+        out.tag(if preused { "decoder:pre-used" } else { "decoder:fresh" });
+        let made = if preused { crate::mon_c01::preused_decoder(rng, api, rate, k, r, size) } else { codec::make_dec(api, k, r, size, None) };
+        let mut dec = match made {
             Ok(e) => e,
             Err(e) => {
                 out.violate("C12:new-failed", format!("{desc}: {e}"));
